@@ -1,6 +1,7 @@
 package main
 
 import (
+	"regexp"
 	"sort"
 	"fmt"
 	"reflect"
@@ -258,8 +259,72 @@ var vOuterTy = &tyNode{Kind: "struct", Fields: []tyField{
 	{"P", "p", "", &tyNode{Kind: "ptr", Elem: vRangeTy}, "", false, "", false},
 	{"Keep", "keep,ignore", "", &tyNode{Kind: "prim", Prim: primKinds[1]}, "", false, "", false}}}
 
+type vRegexp struct {
+	R *regexp.Regexp `config:"r"`
+	V regexp.Regexp  `config:"v"`
+	S string         `config:"s"`
+}
+
+// regexpCases: fields that hold compiled regular expressions, as a pointer and by value, empty or
+// compiled already (a settings struct that is unpacked into again on reload)
+func regexpCases(g *Gen) {
+	r := g.R
+	gv := func(a, b, c string) string {
+		return fmt.Sprintf("(GStructV [GP (CS %s); GP (CS %s); GP (CS %s)])", coqStr(a), coqStr(b), coqStr(c))
+	}
+	for i := 0; i < 8; i++ {
+		re1 := []string{"a.*b", "^x+$", "(a|b)+c"}[r.Intn(3)]
+		re2 := []string{"new[0-9]+", "y?"}[r.Intn(2)]
+		cfg, err := ucfg.NewFrom(map[string]interface{}{"r": re1, "v": re2, "s": "txt"})
+		if err != nil {
+			continue
+		}
+		var x vRegexp
+		if r.Bool() {
+			x.R = regexp.MustCompile("old")
+		}
+		if r.Bool() {
+			x.V = *regexp.MustCompile("oldv")
+		}
+		old := gv(reStr(x.R), x.V.String(), x.S)
+		var uerr error
+		panicked, pmsg := guard(func() {
+			uerr = cfg.Unpack(&x)
+			if uerr == nil && i%2 == 1 {
+				uerr = cfg.Unpack(&x) // the reload
+			}
+		})
+		var obs, d string
+		switch {
+		case panicked:
+			obs, d = "UPanic", "PANIC "+pmsg
+		case uerr != nil:
+			name, path := "EOther", ""
+			if e, ok := uerr.(ucfg.Error); ok {
+				name, path = reasonName(e), e.Path()
+			}
+			obs, d = fmt.Sprintf("(UErr %s %s)", name, coqStr(path)), descErr(uerr)
+		default:
+			obs, d = "(UOk "+gv(reStr(x.R), x.V.String(), x.S)+")", fmt.Sprintf("R=%s V=%s S=%s", reStr(x.R), x.V.String(), x.S)
+		}
+		g.Add(Case{Coq: fmt.Sprintf("CHooked %s (TStruct []) %s %s %s", coqStr("vRegexp"), old, obs, gv(re1, re2, "txt")),
+			Desc: map[string]interface{}{"kind": "hooked", "type": "vRegexp (R *regexp.Regexp, V regexp.Regexp, S string)", "config": fmt.Sprintf("{r: %s, v: %s, s: txt}", re1, re2), "unpacked twice": i%2 == 1, "observed": d},
+			Tags: []string{"hooked:vRegexp"}, Nontrivial: true})
+	}
+}
+
+func reStr(r *regexp.Regexp) string {
+	if r == nil {
+		return ""
+	}
+	return r.String()
+}
+
 func hookedCases(g *Gen) {
 	r := g.R
+	if g.Prop == "C13" {
+		regexpCases(g)
+	}
 	// (d) Unpacker fields under validate tags; null entries of element types with a Validate hook
 	for i := 0; i < 12; i++ {
 		cfgH := map[string]interface{}{"u": int64([]int{3, 5, 9, 0}[r.Intn(4)]), "s": []string{"", "x", "yy"}[r.Intn(3)]}
@@ -546,6 +611,27 @@ func apiErrCases(g *Gen) {
 			}
 			add("getter through a value that holds no settings", want, gerr, p)
 		}
+		// a section taken from a config loaded with a source and attached elsewhere with SetChild
+		// (no MetaData option on that call): faults attributed to the section still name its source
+		{
+			src, err := ucfg.NewFrom(map[string]interface{}{"sec": map[string]interface{}{"port": int64(1), "l": []interface{}{int64(1), int64(2), int64(3)}}},
+				ucfg.PathSep("."), ucfg.MetaData(ucfg.Meta{Source: source}))
+			if err != nil {
+				continue
+			}
+			// (the root config NewFrom returns carries no metadata itself: only sections do)
+			sec, _ := src.Child("sec", -1)
+			dst := ucfg.New()
+			name := at("out")
+			if sec == nil || dst.SetChild(name, -1, sec, ucfg.PathSep(".")) != nil {
+				continue
+			}
+			var gerr error
+			p, _ := guard(func() { _, gerr = dst.Int(name, -1, ucfg.PathSep(".")) })
+			add("Int of a section attached with SetChild", name, gerr, p)
+			p, _ = guard(func() { _, gerr = dst.String(name+".l", -1, ucfg.PathSep(".")) })
+			add("String of a list below a section attached with SetChild", name+".l", gerr, p)
+		}
 		// namespaces created by a setter carry the source of the call
 		{
 			c := ucfg.New()
@@ -565,8 +651,47 @@ func apiErrCases(g *Gen) {
 	}
 }
 
+// numericTagCases: one struct type whose tags are integer literals, unpacked in one process from a
+// list (the tags are indices) and, with EnableNumKeys, from a dictionary (the tags are names): how
+// a field's name is read is decided by the options of every single call
+func numericTagCases(g *Gen) {
+	r := g.R
+	strT := &tyNode{Kind: "prim", Prim: primKinds[9]}
+	for i := 0; i < 6; i++ {
+		tags := [][]string{{"0", "1"}, {"1", "2"}, {"0", "3"}}[r.Intn(3)]
+		t := &tyNode{Kind: "struct", Fields: []tyField{
+			{GoName: "A", CTag: tags[0], T: strT}, {GoName: "B", CTag: tags[1], T: strT}, {GoName: "C", CTag: "c", T: strT}}}
+		for _, numKeys := range []bool{r.Bool(), r.Bool(), true, false} {
+			var data interface{}
+			if numKeys {
+				data = map[string]interface{}{tags[0]: "n0", tags[1]: "n1", "c": "nc"}
+			} else {
+				data = []interface{}{"e0", "e1", "e2", "e3"}
+			}
+			opts := []ucfg.Option{ucfg.PathSep("."), ucfg.EnableNumKeys(numKeys)}
+			cfg, err := ucfg.NewFrom(data, opts...)
+			if err != nil {
+				continue
+			}
+			target := reflect.New(t.goType())
+			target.Elem().Set(randGoValue(r, t, 1))
+			oldC := coqGV(t, target.Elem())
+			var uerr error
+			panicked, pmsg := guard(func() { uerr = cfg.Unpack(target.Interface(), opts...) })
+			obs, d := uobs(t, target.Elem(), uerr, panicked, pmsg)
+			ro := strings.Replace(coqRopts(0, nil, nil), "p_numKeys := false", "p_numKeys := "+coqBool(numKeys), 1)
+			coq := fmt.Sprintf("CUnpack %s %s %s %s %s %s", ro, t.coq(), oldC, coqValue(ucfg.VerifDump(cfg)), obs, coqGV(t, target.Elem()))
+			g.Add(Case{Coq: coq, Desc: map[string]interface{}{"kind": "unpack", "type": t.desc(), "numKeys": numKeys, "config": fmt.Sprint(data), "observed": d},
+				Tags: []string{"unpack", "numeric-tags", fmt.Sprintf("numKeys=%v", numKeys)}, Nontrivial: true})
+		}
+	}
+}
+
 func genReify(g *Gen, mode string) {
 	r := g.R
+	if mode == "C13" {
+		numericTagCases(g)
+	}
 	if mode == "C14" {
 		apiErrCases(g)
 		for i := 0; i < 12; i++ {
